@@ -213,7 +213,7 @@ def run(tier, seed):
                              'random/9 paths', nproc=8)
     chk.sample({'recorded': [a for a, s in batch[0]][:5]})
     # canary: drop one child from a recorded introspection
-    tr = [list(x) for x in batch[0]]
+    tr = [list(x) for x in rerecord({'big': True}, [('Export', (('a',), 'K1')), ('Export', (('a', 'b'), 'K2'))])]
     done = False
     for j in range(len(tr) - 1, 0, -1):
         v = dict(tr[j][1]['view'])
